@@ -26,8 +26,9 @@ type LoopSpec struct {
 }
 
 type CallSiteSpec struct {
-	Callee string // function name pattern
-	Clause *Clause
+	Callee   string // function name pattern
+	Clause   *Clause
+	UseLemma bool // the clause is a lemma application: its instance is assumed here
 }
 
 type Contract struct {
@@ -59,6 +60,8 @@ type Contract struct {
 	CallCounts []CallCount
 	Captures   []*Clause // facts about captured variables, checked where the closure is created
 	DynPure    bool      // calls of function values are assumed not to touch modelled state
+	PerReturn  bool      // postconditions are checked at every return statement separately
+	UseLemmas  []*Clause // lemma instances assumed at exit (the lemma itself is proved separately)
 }
 
 // CallCount declares a ghost counter: number of calls of Callee made by the
@@ -76,6 +79,7 @@ type SpecFunc struct {
 	Src    string
 	Macro  bool // heap-dependent predicate: expanded inline
 	Uninterp bool
+	Opaque   bool // heap-dependent predicate kept as an uninterpreted symbol with a triggered definition
 	Rec    bool
 	File   string
 	Line   int
@@ -98,6 +102,7 @@ type FieldInv struct {
 type ContractDB struct {
 	FieldInvs []*FieldInv
 	Immutable []ImmutableDecl
+	SliceNorm []ImmutableDecl // slice-typed fields whose stored value always has offset 0
 	Funcs  map[string]*Contract
 	Specs  map[string]*SpecFunc
 	Owned  map[string]string // struct type (pkg.Name) -> component
@@ -128,7 +133,7 @@ var clauseKeywords = map[string]bool{
 	"loop": true, "invariant": true, "trusted": true, "spec": true, "pred": true, "owned": true,
 	"on": true, "inline": true, "maypanic": true, "nonblocking": true, "callsite": true, "sendsite": true,
 	"props": true, "nosweep": true, "assume": true, "iface": true, "lemma": true, "hyp": true, "concl": true,
-	"dispatch": true, "end": true, "fieldinv": true, "callcount": true, "captures": true, "dyncalls-pure": true, "immutable": true,
+	"dispatch": true, "end": true, "fieldinv": true, "callcount": true, "captures": true, "dyncalls-pure": true, "immutable": true, "slicenorm": true, "opaque": true, "perreturn": true, "uselemma": true,
 }
 
 // parseContractFile reads one contract file. pkgPath is the import path of
@@ -218,6 +223,13 @@ func (db *ContractDB) parseContractFile(path, pkgPath string) {
 			if cur != nil {
 				cur.Trusted = true
 			}
+		case "uselemma":
+			if cur == nil {
+				continue
+			}
+			if c := mkClause(it); c != nil {
+				cur.UseLemmas = append(cur.UseLemmas, c)
+			}
 		case "requires", "ensures", "assume", "captures":
 			if cur == nil {
 				db.Errors = append(db.Errors, fmt.Sprintf("%s:%d: clause outside func", path, it.line))
@@ -263,6 +275,10 @@ func (db *ContractDB) parseContractFile(path, pkgPath string) {
 		case "maypanic":
 			if cur != nil {
 				cur.MayPanic = true
+			}
+		case "perreturn":
+			if cur != nil {
+				cur.PerReturn = true
 			}
 		case "dyncalls-pure":
 			if cur != nil {
@@ -313,11 +329,17 @@ func (db *ContractDB) parseContractFile(path, pkgPath string) {
 				db.Errors = append(db.Errors, fmt.Sprintf("%s:%d: callsite needs 'callee : expr'", path, it.line))
 				continue
 			}
-			c := mkClause(item{it.kw, it.text[j+1:], it.line})
+			body := strings.TrimSpace(it.text[j+1:])
+			useLemma := false
+			if strings.HasPrefix(body, "use ") {
+				useLemma = true
+				body = strings.TrimSpace(body[4:])
+			}
+			c := mkClause(item{it.kw, body, it.line})
 			if c == nil {
 				continue
 			}
-			cs := &CallSiteSpec{Callee: strings.TrimSpace(it.text[:j]), Clause: c}
+			cs := &CallSiteSpec{Callee: strings.TrimSpace(it.text[:j]), Clause: c, UseLemma: useLemma}
 			if it.kw == "callsite" {
 				cur.CallSites = append(cur.CallSites, cs)
 			} else {
@@ -332,8 +354,18 @@ func (db *ContractDB) parseContractFile(path, pkgPath string) {
 			n := 0
 			fmt.Sscanf(f[1][3:], "%d", &n)
 			cur.CallCounts = append(cur.CallCounts, CallCount{Callee: f[0], Arg: n})
-		case "spec", "pred":
-			sf, err := parseSpecFunc(it.kw, it.text)
+		case "spec", "pred", "opaque":
+			kw, text := it.kw, it.text
+			opaque := false
+			if kw == "opaque" {
+				opaque = true
+				kw = "pred"
+				text = strings.TrimSpace(strings.TrimPrefix(strings.TrimSpace(text), "pred"))
+			}
+			sf, err := parseSpecFunc(kw, text)
+			if sf != nil {
+				sf.Opaque = opaque
+			}
 			if err != nil {
 				db.Errors = append(db.Errors, fmt.Sprintf("%s:%d: %v", path, it.line, err))
 				continue
@@ -348,6 +380,14 @@ func (db *ContractDB) parseContractFile(path, pkgPath string) {
 				continue
 			}
 			db.Immutable = append(db.Immutable, ImmutableDecl{Pkg: pkgPath, Type: f[0], Fields: f[1:], Line: it.line, File: path})
+			cur, curLoop, curLemma = nil, nil, nil
+		case "slicenorm":
+			f := strings.Fields(strings.ReplaceAll(it.text, ",", " "))
+			if len(f) < 2 {
+				db.Errors = append(db.Errors, fmt.Sprintf("%s:%d: slicenorm needs 'Type field...'", path, it.line))
+				continue
+			}
+			db.SliceNorm = append(db.SliceNorm, ImmutableDecl{Pkg: pkgPath, Type: f[0], Fields: f[1:], Line: it.line, File: path})
 			cur, curLoop, curLemma = nil, nil, nil
 		case "fieldinv":
 			j := strings.Index(it.text, ":")
